@@ -63,3 +63,18 @@ for _nm, _sig, _exp, _n in (('struct3', '(((y)))', '{0, 1, 2, 3}', 8), ('arr_str
                       bounds={'signature': _sig, 'body_bytes': _n},
                       functions=[dict(name='validate_body_helper', file=VAL, status='bounded', note='ghost log of the total_depth argument of every invocation')],
                       assumptions=['dbus-list behaves as a LIFO stack of integers in the signature validator (stub, not verified)']))
+
+
+# ---- variants: the contained signature is part of the body. With a SYMBOLIC contained signature the unit does not finish
+# (34 min, no verdict: control flow on type codes stored in the buffer); each unit therefore FIXES the contained signature bytes
+# (concrete assignments) and leaves the rest of the body symbolic.
+for _nm, _fix, _n in (('u', "in_buf[0] = 1; in_buf[1] = 'u'; in_buf[2] = 0;", 12), ('y', "in_buf[0] = 1; in_buf[1] = 'y'; in_buf[2] = 0;", 8),
+                      ('s', "in_buf[0] = 1; in_buf[1] = 's'; in_buf[2] = 0;", 12), ('ay', "in_buf[0] = 2; in_buf[1] = 'a'; in_buf[2] = 'y'; in_buf[3] = 0;", 12),
+                      ('_y_', "in_buf[0] = 3; in_buf[1] = '('; in_buf[2] = 'y'; in_buf[3] = ')'; in_buf[4] = 0;", 12)):
+    for _le, _tier in ((1, 'quick'), (0, 'thorough')):
+        _u = dict([u for u in UNITS if u['name'].startswith('C01.body.y.')][0])
+        _u = dict(_u, name='C01.body.v_%s.%s%d' % (_nm, 'le' if _le else 'be', _n), tier=_tier, expect_s=60, timeout=1200,
+                  defines=['VERIF_N=%d' % _n, 'VERIF_LE=%d' % _le, 'VERIF_SIG="v"', 'VERIF_BODY_ASSUME=' + _fix], unwind=_n + 3,
+                  cbmc_flags=['--object-bits', '10'], replay_fn='v:%d' % _le,
+                  bounds={'signature': 'v', 'body_bytes': _n, 'byte_order': 'little' if _le else 'big', 'variant_signature_fixed_to': _nm})
+        UNITS.append(_u)
